@@ -37,6 +37,7 @@ Inductive case :=
 | CSign (tk : N) (key msg msg2 key2 : bytes)
 | CWit (wk : N) (hash key : bytes) (dp : option bytes) (magic : option N)   (* 0/1 vkey witness normal/extended, 2 Icarus, 3 Daedalus *)
 | CDerive (root : bytes) (path : list N)
+| CPubDerive (xpub : bytes) (path : list N)        (* Bip32PublicKey::from_bytes then derive along the path *)
 | CBip39 (entropy password : bytes)
 | CX128 (k : bytes)
 | CEnc3 (tp ts tn td : text)
@@ -137,6 +138,12 @@ Definition obs_derive (root : bytes) (path : list N) : obs :=
   | _ => [Err]
   end.
 
+Definition obs_pubderive (xpub : bytes) (path : list N) : obs :=
+  match kt_from_binary T_xpub xpub with
+  | Ok p => [derive_pub_path P p path]
+  | _ => [Err]
+  end.
+
 Definition obs_bip39 (entropy password : bytes) : obs :=
   let k := from_bip39_entropy P entropy password in [Ok k; xprv_from_bytes k].
 
@@ -161,6 +168,7 @@ Definition model_obs (c : case) : obs :=
   | CSign tk k m m2 k2 => obs_sign tk k m m2 k2
   | CWit wk h k dp mg => obs_wit wk h k dp mg
   | CDerive r p => obs_derive r p
+  | CPubDerive x p => obs_pubderive x p
   | CBip39 e pw => obs_bip39 e pw
   | CX128 k => obs_x128 k
   | CEnc3 tp ts tn td => obs_enc3 tp ts tn td
@@ -196,9 +204,20 @@ Definition known_emip3_empty (c : case) : bool :=
   negb fixed_emip3_empty &&
   match c with CEnc3 _ _ _ td => match unhex td with Some [] => true | _ => false end | _ => false end.
 
+(* 5 (not repaired): a BIP32 private key whose scalar has bit 253 set passes the structure check of from_bytes (only bits 255/254 and the
+   three lowest are tested), and deriving from it can carry into bit 255: the derived key is then no valid key any more (from_bytes of its
+   own bytes fails).  BIP32-Ed25519 admits only roots with bit 253 clear, but bit 253 is legitimately set in DERIVED keys, so the import
+   check cannot simply demand it.  Class = derivation from a root with bit 253 set that ends in a key failing the structure check. *)
+Definition bit253 (k : bytes) : bool := (nth 31 k 0 / 32) mod 2 =? 1.
+Definition known_bit253_overflow (c : case) : bool :=
+  match c with
+  | CDerive root path => is_ok (xprv_from_bytes root) && bit253 root && negb (xprv_bits_ok (derive_prv_path P root path))
+  | _ => false
+  end.
+
 Definition known_class (c : case) : N :=
   if known_xprv128_length c then 1 else if known_hash_padding c then 2 else if known_ext_scalar c then 3
-  else if known_emip3_empty c then 4 else 0.
+  else if known_emip3_empty c then 4 else if known_bit253_overflow c then 5 else 0.
 
 (* ---------------- the property's statement on an observation ---------------- *)
 Definition all_soft (path : list N) : bool := forallb soft path.
@@ -246,6 +265,7 @@ Definition stmt (c : case) (io : obs) : bool :=
   | CDerive root path, [Ok kf; Ok pf; rp; rk; Ok ra; Ok rb; Ok ca; Ok cb] =>
       (if all_soft path then res_eqb rp (Ok pf) else is_err_b rp) && list_eqb ra rb && list_eqb ca cb
   | CDerive _ _, [Err] => true
+  | CPubDerive _ path, [r] => if all_soft path then true else is_err_b r
   | CBip39 _ _, [Ok k; rk] => res_eqb rk (Ok k)
   | CX128 k, [Ok x; rk] => res_eqb rk (Ok k) && (len x =? 128) && list_eqb (firstn 64 x) (firstn 64 k) && list_eqb (skipn 96 x) (skipn 64 k)
   | CX128 _, [Err] => true
@@ -281,5 +301,17 @@ Definition judge (c : case) (io : obs) : verdict :=
     (if kc =? 0 then FailsUnknown else FailsKnown kc)
   else if stmt c io && stmt_tested c io then Holds
   else (if kc =? 0 then FailsUnknown else FailsKnown kc).
+
+(* ---------------- sequences of calls made one after the other in ONE process and thread ----------------
+   The model of a sequence is the list of the models of its steps: [model_obs] is a function of the step alone, so whatever an
+   implementation remembers from earlier calls (caches, thread-locals, statics) and lets influence a later result shows up as a
+   disagreement at that step; every step is judged by the statement of its own kind. *)
+Definition model_seq (l : list case) : list obs := map model_obs l.
+Fixpoint judge_seq (l : list case) (ios : list obs) : verdict :=
+  match l, ios with
+  | [], [] => Holds
+  | c :: l', io :: ios' => match judge c io with Holds => judge_seq l' ios' | v => v end
+  | _, _ => FailsUnknown
+  end.
 
 End Obs.
